@@ -70,6 +70,27 @@ def cases(tier, seed):
                     yield ploidy, H, reads, counts, F, fr
 
 
+def deep_cases(tier, seed):
+    """high ploidy, three or more distinct alleles in the true genotype, deep reads: the support of the mode has many dosage
+    configurations whose posterior terms are far from monotone in enumeration order"""
+    rng = np.random.default_rng(seed + 303)
+    N = 4
+    for ploidy, nh, depth in ([(5, 3, 48), (6, 4, 64)] if tier == "quick" else [(5, 3, 48), (6, 3, 64), (6, 4, 64), (7, 3, 80), (5, 4, 96)]):
+        H = np.unique(rng.integers(0, 2, size=(60, N)).astype(np.int8), axis=0)
+        H = H[rng.permutation(len(H))][:nh]
+        k = min(len(H), 3)
+        true = np.sort(np.concatenate([np.arange(k), rng.integers(0, k, size=ploidy - k)]))
+        reads = np.empty((depth, N, 2))
+        for r in range(depth):
+            h = H[true[int(rng.integers(0, ploidy))]]
+            for j in range(N):
+                reads[r, j, h[j]] = 0.97
+                reads[r, j, 1 - h[j]] = 0.03
+        counts = np.ones(depth, dtype=np.int64)
+        for F in (0.0, 0.2):
+            yield ploidy, H, reads, counts, F, None
+
+
 def check_exact_kernels(tier, seed):
     ev = nontriv = concentrated = 0
     fails = []
@@ -79,7 +100,7 @@ def check_exact_kernels(tier, seed):
         if len(fails) < 5 and not any(f["key"] == key for f in fails):
             fails.append({"key": key, "check": fn, "input": inp, "observed": obs, "expected": exp, "how": how})
 
-    for ploidy, H, reads, counts, F, fr in cases(tier, seed):
+    for ploidy, H, reads, counts, F, fr in itertools.chain(cases(tier, seed), deep_cases(tier, seed)):
         nh = len(H)
         f_or = [1.0 / nh] * nh if fr is None else fr.tolist()
         gens, post = exact_posterior(reads, counts, H, ploidy, f_or, F)
